@@ -70,15 +70,15 @@ contract Explore.UpdateTargets
            mapof(tkestack.io/kvass/pkg/scrape.StatisticsSeriesResult.MetricsTotal) at {}, gXJob, gXIdx
   loop 1 invariant all != nil && fresh(all) && e.targets == old(e.targets) && samemap(e.targets)
   loop 1 invariant forall jn in visited1 :: (jn in targets && forall t in targets[jn] :: (t.ShardTarget.Hash in all))
-  loop 1 invariant forall h, x in all :: x != nil && fromUpdate(h, targets)
-  loop 1 invariant forall h, x in all :: (old(e.targets[h]) != nil ==> x == old(e.targets[h]))
-  loop 1 invariant forall h, x in all :: (old(e.targets[h]) == nil ==> (fresh(x) && allocated(x) && !x.exploring && x.rt != nil && x.job == gXJob[h] && x.target == targets[gXJob[h]][gXIdx[h]].ShardTarget))
+  loop 1 invariant[C17] @only_targets_of_the_update_are_tracked forall h, x in all :: x != nil && fromUpdate(h, targets)
+  loop 1 invariant[C17] @known_targets_keep_their_entry forall h, x in all :: (old(e.targets[h]) != nil ==> x == old(e.targets[h]))
+  loop 1 invariant[C17] @new_targets_start_unexplored forall h, x in all :: (old(e.targets[h]) == nil ==> (fresh(x) && allocated(x) && !x.exploring && x.rt != nil && x.job == gXJob[h] && x.target == targets[gXJob[h]][gXIdx[h]].ShardTarget))
   loop 2 invariant all != nil && fresh(all) && e.targets == old(e.targets) && samemap(e.targets)
   loop 2 invariant forall jn in visited1 :: (jn != job ==> (jn in targets && forall t in targets[jn] :: (t.ShardTarget.Hash in all)))
   loop 2 invariant job in targets && ts == targets[job] && (forall j in 0..idx2 :: ts[j].ShardTarget.Hash in all)
-  loop 2 invariant forall h, x in all :: x != nil && fromUpdate(h, targets)
-  loop 2 invariant forall h, x in all :: (old(e.targets[h]) != nil ==> x == old(e.targets[h]))
-  loop 2 invariant forall h, x in all :: (old(e.targets[h]) == nil ==> (fresh(x) && allocated(x) && !x.exploring && x.rt != nil && x.job == gXJob[h] && x.target == targets[gXJob[h]][gXIdx[h]].ShardTarget))
+  loop 2 invariant[C17] @only_targets_of_the_update_are_tracked forall h, x in all :: x != nil && fromUpdate(h, targets)
+  loop 2 invariant[C17] @known_targets_keep_their_entry forall h, x in all :: (old(e.targets[h]) != nil ==> x == old(e.targets[h]))
+  loop 2 invariant[C17] @new_targets_start_unexplored forall h, x in all :: (old(e.targets[h]) == nil ==> (fresh(x) && allocated(x) && !x.exploring && x.rt != nil && x.job == gXJob[h] && x.target == targets[gXJob[h]][gXIdx[h]].ShardTarget))
 
 // a reload keeps the entries of every job that is still configured and removes those of deleted jobs at once
 pred jobListed(j, cfg) = exists k in 0..len(cfg.Config.ScrapeConfigs) :: cfg.Config.ScrapeConfigs[k].JobName == j
@@ -91,6 +91,6 @@ contract Explore.ApplyConfig
   modifies Explore.targets at {e}, mapof(Explore.targets) at {}
   loop 1 invariant fresh(jobs) && len(jobs) == idx1 && (forall k in 0..idx1 :: jobs[k] == cfg.Config.ScrapeConfigs[k].JobName)
   loop 2 invariant newTargets != nil && fresh(newTargets) && deletedJobs != nil && fresh(deletedJobs) && e.targets == old(e.targets) && samemap(e.targets)
-  loop 2 invariant forall h, x in newTargets :: (h in visited2 && h in e.targets && x == e.targets[h] && jobListed(x.job, cfg))
-  loop 2 invariant forall h in visited2 :: (h in e.targets && (jobListed(e.targets[h].job, cfg) ==> h in newTargets))
+  loop 2 invariant[C17] @targets_of_deleted_jobs_go_at_once forall h, x in newTargets :: (h in visited2 && h in e.targets && x == e.targets[h] && jobListed(x.job, cfg))
+  loop 2 invariant[C17] @targets_of_kept_jobs_stay forall h in visited2 :: (h in e.targets && (jobListed(e.targets[h].job, cfg) ==> h in newTargets))
 @*/
